@@ -208,7 +208,7 @@ OB = "Definition ob (a : option bool) (b : bool) := match a with Some x => Bool.
 def _link_space() -> Tuple[List[type], List[dict]]:
     from harness import c18
     classes = c18.make_classes([None, None, 0], "st")
-    cands = [{"jt": jt, "l": a, "r": b, "li": ["k"], "ri": ["k"]} for jt in ("INNER", "LEFT", "RIGHT", "APPEND")
+    cands = [{"jt": jt, "l": a, "r": b, "li": ["k"], "ri": ["k"]} for jt in ("INNER", "LEFT", "RIGHT", "OUTER", "APPEND", "UNION")
              for a in range(3) for b in range(3)]
     return classes, cands
 
